@@ -12,6 +12,7 @@ import (
 	"strconv"
 	"strings"
 	"sync"
+	"time"
 
 	"github.com/go-spring/log"
 
@@ -105,7 +106,7 @@ func handleNames(r *hx.Result) {
 		}
 	}
 	log.VerifReset()
-	for _, name := range []string{"lg.level", "lg.appenderRef", "lg.appenderRef.ref", "lg.type", "logger.lg", "lg."} {
+	for _, name := range []string{"lg.level", "lg.appenderRef", "lg.appenderRef.ref", "lg.type", "logger.lg", "lg.", "", " ", "LG", "lg "} {
 		log.Destroy()
 		log.VerifReset()
 		sys.ResetAppenders()
@@ -142,7 +143,7 @@ func cmdRawWrite(f hx.Flags, r *hx.Result) {
 	}
 	defer os.RemoveAll(tmp)
 	log.RegisterTimeRotation("h", log.TimeRotation{Interval: 3600e9})
-	kinds := []string{"sync", "async", "syncLayout", "asyncLayout", "roll", "rollAsync", "rollSep", "console", "file"}
+	kinds := []string{"sync", "async", "syncLayout", "asyncLayout", "roll", "rollAsync", "rollSep", "console", "file", "asyncFile"}
 	classes := []string{"plain", "empty", "one", "binary", "multiline", "format", "large"}
 	writersSet := []int{1, 2, 8}
 	if hx.Thorough() {
@@ -177,6 +178,8 @@ func cmdRawWrite(f hx.Flags, r *hx.Result) {
 				}
 				cfg := sys.Cfg{}
 				var apps []string
+				var heldGate chan struct{}
+				delete(sys.GateNext, "r1")
 				isRoll := strings.HasPrefix(kind, "roll")
 				switch {
 				case isRoll:
@@ -194,6 +197,21 @@ func cmdRawWrite(f hx.Flags, r *hx.Result) {
 				case kind == "file":
 					cfg.AddRec("unused")
 					cfg.AddLogger("lg", "File", "INFO", "some_tag", nil, false, map[string]string{"fileDir": dir, "fileName": "f.log"})
+				case kind == "asyncFile":
+					// an asynchronous logger in front of appenders that hold something open (a file, a rolling file), behind a
+					// recording appender that keeps the worker waiting: everything written is still queued when Destroy starts
+					apps = []string{"r1"}
+					cfg.AddRec("r1")
+					cfg["appender.fa.type"], cfg["appender.fa.fileDir"], cfg["appender.fa.fileName"] = "File", dir, "fa.log"
+					cfg["appender.ra.type"], cfg["appender.ra.fileDir"], cfg["appender.ra.fileName"], cfg["appender.ra.rotation"] = "RollingFile", dir, "ra.log", "h"
+					cfg["appender.ra.maxAge"] = "24"
+					for _, a := range []string{"fa", "ra"} {
+						cfg["appender."+a+".layout.type"] = "TextLayout"
+					}
+					heldGate = make(chan struct{})
+					sys.GateNext["r1"] = &sys.RecAppender{Gate: heldGate}
+					cfg.AddLogger("lg", "AsyncLogger", "INFO", "some_tag", []sys.Ref{{Ref: "r1"}, {Ref: "fa", Level: "ERROR"}, {Ref: "ra"}}, true,
+						map[string]string{"bufferSize": "128", "bufferFullPolicy": "Block"})
 				default:
 					apps = []string{"r1", "r2", "r3"}
 					for _, a := range apps {
@@ -235,6 +253,9 @@ func cmdRawWrite(f hx.Flags, r *hx.Result) {
 							for seq := 0; seq < perWriter; seq++ {
 								pl := rwPayload(class, w, seq)
 								buf = append(buf[:0], pl...)
+								if seq%2 == 1 { // a recycled buffer that is exactly full: a fixed-size record, no spare capacity
+									buf = buf[:len(pl):len(pl)]
+								}
 								nn, werr := h.Write(buf)
 								if nn != len(pl) || werr != nil {
 									r.Violate("write-result", desc, "Write returned (%d,%v), want (%d,nil)", nn, werr, len(pl))
@@ -257,6 +278,10 @@ func cmdRawWrite(f hx.Flags, r *hx.Result) {
 				if blocked {
 					log.VerifReset()
 					continue
+				}
+				if heldGate != nil {
+					g := heldGate
+					go func() { time.Sleep(40 * time.Millisecond); close(g) }() // the worker is let go once Destroy is under way
 				}
 				if ret, p := hx.Within(20e9, func() { log.Destroy() }); !ret || p != nil {
 					r.Violate("destroy-failed:"+kind, desc, "Destroy returned=%v panic=%v", ret, p)
@@ -292,6 +317,14 @@ func cmdRawWrite(f hx.Flags, r *hx.Result) {
 					b, _ := os.ReadFile(filepath.Join(dir, "f.log"))
 					streams["f.log"] = b
 				default:
+					if kind == "asyncFile" {
+						streams["fa.log"], streams["ra.log"] = nil, nil
+						ents, _ := os.ReadDir(dir)
+						for _, e := range ents {
+							b, _ := os.ReadFile(filepath.Join(dir, e.Name()))
+							streams[e.Name()[:6]] = append(streams[e.Name()[:6]], b...)
+						}
+					}
 					for _, a := range apps {
 						var b []byte
 						cnt := 0
